@@ -58,6 +58,9 @@ let op_of_string (s : string) : op =
   | ["XD"; a] -> OExtRemove (bytes_of_hex a)
   | ["XC"; a; k; d] -> OExtCreate (bytes_of_hex a, n_of_int (int_of_string k), bytes_of_hex d)
   | ["XM"; a] -> OExtMkdir (bytes_of_hex a)
+  (* a symbolic link to a directory that lies outside the log directory: is_file() and metadata() follow links, so for
+     everything the logger may do with it, and for the snapshot, it is a sub-directory *)
+  | ["XL"; a] -> OExtMkdir (bytes_of_hex a)
   | ["Q"; f; c] -> OQuery (selector_of_string (f ^ ":" ^ c))
   | ["FA"; bits] -> OSetFaults (List.init (String.length bits) (fun i -> bits.[i] = '1'))
   | ["KI"; k] -> OSetKill (nat_of_int (int_of_string k))
